@@ -15,7 +15,7 @@
      - c17_adequate_getattr_covered_partial: a manifest accepted by the validator has a trie node for every
        direct attribute chain of an accepted GetAttr (PARTIAL: this is the coverage half of
        `adequate m e -> eval e (slice) = eval e (full)`; the evaluation-equality half is not proved). *)
-From Cedar Require Import Manifest ManifestProofs.
+From Cedar Require Import Manifest ManifestSpec ManifestProofs ManifestSound.
 From Coq Require Import List.
 Import ListNotations.
 
@@ -46,12 +46,39 @@ Theorem c17_walk_app : forall p q t,
 Proof. exact walk_app. Qed.
 Print Assumptions c17_walk_app.
 
-Theorem c17_adequate_getattr_covered_partial : forall m e a ty p,
-  adequate m (TEGetAttr e a ty) = true ->
-  direct_path (TEGetAttr e a ty) = Some p ->
+Theorem c17_adequate_getattr_covered_partial : forall sl m e a ty p,
+  adequate sl m (TEGetAttr e a ty) = true ->
+  direct_path sl (TEGetAttr e a ty) = Some p ->
   exists t, node_at m p = Some t.
 Proof. exact adequate_getattr_covered. Qed.
 Print Assumptions c17_adequate_getattr_covered_partial.
+
+(* MAIN THEOREM (partial): on any store es' that is a good slice of es for the root access trie m
+   (`good_slice`: along every path of the trie the entities are present iff present in es, the listed
+   attributes are present iff present in es and agree recursively, requested ancestors are kept exactly),
+   every typed expression of the visible fragment whose manifest requirements are met (`frag sl m e =
+   Some KExact`: literals, variables, slots, GetAttr chains from request variables / entity literals / slots,
+   `has` on chains, && || ! if, == against a non-record operand or between exact operands, < <= + - *,
+   containsAll/containsAny, contains of an exact element, like, is, extension calls / set / record literals of
+   exact operands, `a in b` with a a chain and b a chain or a set literal of chains whose paths are marked in
+   a's ancestors trie) evaluates on es' to exactly the same value or error as on es.
+   PARTIAL because (1) the fragment excludes projections out of record literals / `if`, == between two
+   attribute chains (needs typing + full_type_required), tags; (2) `good_slice` is a hypothesis: the refinement
+   `slice_by_manifest fuel m q es = SOk es' -> good_slice ...` (a proof about the fuelled loader loop and the
+   merge) is NOT proved — the executable slice is tied to the implementation by the correspondence instead. *)
+Theorem c17_adequate_sound_partial : forall q es es' m sl e,
+  good_slice q es es' m -> frag sl m e = Some KExact ->
+  eval sl q es' (erase e) = eval sl q es (erase e).
+Proof. exact adequate_sound. Qed.
+Print Assumptions c17_adequate_sound_partial.
+
+(* lifted to responses through the authorizer model of C01: same decision, determining policies, errors *)
+Theorem c17_response_sound_partial : forall q es es' m ps,
+  good_slice q es es' m ->
+  (forall p, In p ps -> exists te, pcondition p = erase te /\ frag (penv p) m te = Some KExact) ->
+  is_authorized ps q es' = is_authorized ps q es.
+Proof. exact response_sound. Qed.
+Print Assumptions c17_response_sound_partial.
 
 (* non-vacuity: a trie for principal.manager.name, a store, and the slice of the principal *)
 Definition ex_trie : trie :=
@@ -63,8 +90,42 @@ Example ex_slice_entity :
   slice_entity ex_trie ex_data = SOk (mkEdata [(s2str "manager", VEntity (ex_user "bob"))] [] []).
 Proof. vm_compute. reflexivity. Qed.
 Example ex_adequate :
-  adequate [(RVar Principal, ex_trie)]
+  adequate [] [(RVar Principal, ex_trie)]
     (TEGetAttr (TEGetAttr (TEVar Principal None) (s2str "manager") None) (s2str "name") None) = true
-  /\ adequate [(RVar Principal, ex_trie)]
+  /\ adequate [] [(RVar Principal, ex_trie)]
     (TEGetAttr (TEGetAttr (TEVar Principal None) (s2str "manager") None) (s2str "age") None) = false.
 Proof. vm_compute. split; reflexivity. Qed.
+
+(* non-vacuity of the main theorem: a manifest, a store, its executable slice (which is a good slice), and a
+   fragment expression that reads through an entity-valued attribute *)
+Definition ex_q : request := mkRequest (ex_user "alice") (mkUid [s2str "Action"] (s2str "view")) (ex_user "doc") [].
+Definition ex_es : entities :=
+  [ (ex_user "alice", mkEdata [(s2str "age", VLong 3); (s2str "manager", VEntity (ex_user "bob"))] [] [ex_user "g"]);
+    (ex_user "bob", mkEdata [(s2str "age", VLong 5); (s2str "name", VString (s2str "b"))] [] []) ].
+Definition ex_m : rtrie := [(RVar Principal, ex_trie)].
+Definition ex_es' : entities :=
+  [ (ex_user "alice", mkEdata [(s2str "manager", VEntity (ex_user "bob"))] [] []);
+    (ex_user "bob", mkEdata [(s2str "name", VString (s2str "b"))] [] []) ].
+Definition ex_e : texpr :=
+  TEBinApp BEq (TEGetAttr (TEGetAttr (TEVar Principal None) (s2str "manager") None) (s2str "name") None)
+           (TELit (PString (s2str "b")) None) None.
+
+Example ex_slice_is_executable_slice :
+  slice_by_manifest 8 [(request_type ex_q, ex_m)] ex_q ex_es = SOk ex_es'.
+Proof. vm_compute. reflexivity. Qed.
+
+Example ex_frag : frag [] ex_m ex_e = Some KExact.
+Proof. vm_compute. reflexivity. Qed.
+
+Example ex_good_slice : good_slice ex_q ex_es ex_es' ex_m.
+Proof.
+  intros r t L. unfold ex_m in L. cbn [lookup_root] in L.
+  destruct (root_eqb r (RVar Principal)) eqn:E; [|discriminate]. inversion L; subst t.
+  destruct r as [u|v]; [discriminate|]. destruct v; try discriminate.
+  cbn. repeat split; try reflexivity;
+    intros r0 t0 p t1 v x Hl; discriminate.
+Qed.
+
+Example ex_main_instance :
+  eval [] ex_q ex_es' (erase ex_e) = eval [] ex_q ex_es (erase ex_e) /\ eval [] ex_q ex_es (erase ex_e) = Ok (VBool true).
+Proof. split; [exact (c17_adequate_sound_partial _ _ _ _ _ _ ex_good_slice ex_frag) | vm_compute; reflexivity]. Qed.
